@@ -1,4 +1,154 @@
-//! C16 (filled in below)
+//! C16: the BLS12-377 engine instantiated over the crate's own fields versus the reference
+//! arkworks engine, both in one binary.  Every observable is logged from both engines; the
+//! trace specification (spec/Pairing.tla) requires them byte-identical and consistent with an
+//! abstract bilinear group over exponents.
+use crate::common::*;
+use ark_ec::pairing::Pairing;
+use ark_ec::{AffineRepr, CurveGroup, Group};
+use ark_ff::{Field, PrimeField};
+use ark_serialize::{CanonicalDeserialize, CanonicalSerialize};
 use rand_chacha::ChaCha20Rng;
+use serde_json::json;
 use std::io::Write;
-pub fn record(_out: &mut dyn Write, _r: &mut ChaCha20Rng, _n: usize) {}
+
+type Ours = decaf377::Bls12_377;
+type Refe = ark_bls12_377::Bls12_377;
+type SO = <Ours as Pairing>::ScalarField;
+type SR = <Refe as Pairing>::ScalarField;
+
+fn ser<T: CanonicalSerialize>(x: &T, compressed: bool) -> Vec<u8> {
+    let mut v = Vec::new();
+    if compressed {
+        x.serialize_compressed(&mut v).unwrap();
+    } else {
+        x.serialize_uncompressed(&mut v).unwrap();
+    }
+    v
+}
+
+fn scalars(r: &mut ChaCha20Rng, n: usize) -> Vec<Vec<u8>> {
+    let q = Q_LE.to_vec();
+    let mut v: Vec<Vec<u8>> = vec![
+        vec![0; 32],
+        le_pow2(0, 32),
+        le_add_small(&vec![0; 32], 2),
+        le_sub_small(&q, 1),
+        le_shr1(&le_sub_small(&q, 1)),
+        le_shr1(&le_add_small(&q, 1)),
+        le_pow2(64, 32),
+        le_sub_small(&le_pow2(64, 32), 1),
+        le_pow2(128, 32),
+        le_pow2(252, 32),
+    ];
+    for _ in 0..n {
+        let mut b = rbytes(r, 32);
+        b[31] &= 0x0f;
+        v.push(b);
+    }
+    v
+}
+
+pub fn record(out: &mut dyn Write, r: &mut ChaCha20Rng, n: usize) {
+    emit(out, json!({"k":"reset","build":BUILD}));
+    let g1o = <Ours as Pairing>::G1::generator();
+    let g2o = <Ours as Pairing>::G2::generator();
+    let g1r = <Refe as Pairing>::G1::generator();
+    let g2r = <Refe as Pairing>::G2::generator();
+    // generators (affine coordinates of G1 as integers, for the curve-equation / order check in the spec)
+    {
+        let a = g1o.into_affine();
+        let (x, y) = a.xy().unwrap();
+        let ar = g1r.into_affine();
+        let (xr, yr) = ar.xy().unwrap();
+        emit(out, json!({"k":"blsgen","grp":"G1","x":x.to_bytes_le().to_vec(),"y":y.to_bytes_le().to_vec(),
+            "xr":xr.into_bigint().to_bytes_le_vec(),"yr":yr.into_bigint().to_bytes_le_vec(),
+            "ours":ser(&a, true),"ref":ser(&ar, true),"ours_unc":ser(&a, false),"ref_unc":ser(&ar, false)}));
+        let b = g2o.into_affine();
+        let br = g2r.into_affine();
+        emit(out, json!({"k":"blsgen","grp":"G2","ours":ser(&b, true),"ref":ser(&br, true),"ours_unc":ser(&b, false),"ref_unc":ser(&br, false)}));
+    }
+    let sc = scalars(r, n);
+    let so = |b: &[u8]| SO::from_le_bytes_mod_order(b);
+    let sr = |b: &[u8]| SR::from_le_bytes_mod_order(b);
+    // scalar multiplication in G1 and G2, additivity, serialisation in both modes, cross-deserialisation
+    for (i, a) in sc.iter().enumerate() {
+        if i % 40 == 39 {
+            emit(out, json!({"k":"reset","build":BUILD}));
+        }
+        let b = &sc[(i * 7 + 3) % sc.len()];
+        for grp in ["G1", "G2"] {
+            let terms = if i % 3 == 0 { vec![a.clone()] } else { vec![a.clone(), b.clone()] };
+            macro_rules! go {
+                ($G:ident, $go:expr, $gr:expr) => {{
+                    let sum_o: SO = terms.iter().map(|t| so(t)).sum();
+                    let sum_r: SR = terms.iter().map(|t| sr(t)).sum();
+                    let po = ($go * sum_o).into_affine();
+                    let pr = ($gr * sum_r).into_affine();
+                    let parts_o = terms.iter().fold(<Ours as Pairing>::$G::zero_pt(), |acc, t| acc + $go * so(t)).into_affine();
+                    let bytes_o = ser(&po, true);
+                    let bytes_r = ser(&pr, true);
+                    // cross-deserialisation: each engine reads the other's bytes (both modes) and writes them back
+                    let cross = {
+                        let a1 = <<Refe as Pairing>::$G as CurveGroup>::Affine::deserialize_compressed(&bytes_o[..]).map(|p| ser(&p, true) == bytes_o).unwrap_or(false);
+                        let a2 = <<Ours as Pairing>::$G as CurveGroup>::Affine::deserialize_compressed(&bytes_r[..]).map(|p| ser(&p, true) == bytes_r).unwrap_or(false);
+                        let u_o = ser(&po, false);
+                        let a3 = <<Refe as Pairing>::$G as CurveGroup>::Affine::deserialize_uncompressed(&u_o[..]).map(|p| ser(&p, false) == u_o).unwrap_or(false);
+                        a1 && a2 && a3
+                    };
+                    emit(out, json!({"k":"blsmul","grp":grp,"terms":terms,"ours":bytes_o,"ref":bytes_r,
+                        "ours_unc":ser(&po, false),"ref_unc":ser(&pr, false),"ours_sum":ser(&parts_o, true),"cross":cross}));
+                }};
+            }
+            if grp == "G1" {
+                go!(G1, g1o, g1r)
+            } else {
+                go!(G2, g2o, g2r)
+            }
+        }
+    }
+    emit(out, json!({"k":"reset","build":BUILD}));
+    // pairings: (a, b) and other factorisations of the same product
+    let gt_o = Ours::pairing(g1o, g2o);
+    let gt_r = Refe::pairing(g1r, g2r);
+    let mut pairs: Vec<(Vec<u8>, Vec<u8>)> = vec![(sc[0].clone(), sc[1].clone()), (sc[1].clone(), sc[0].clone()), (sc[1].clone(), sc[1].clone())];
+    for i in 0..(n / 2 + 6) {
+        let a = sc[(i * 3 + 1) % sc.len()].clone();
+        let b = sc[(i * 5 + 2) % sc.len()].clone();
+        let ab = (so(&a) * so(&b)).to_bytes_le().to_vec();
+        pairs.push((a.clone(), b.clone()));
+        pairs.push((b.clone(), a.clone()));
+        pairs.push((ab.clone(), sc[1].clone()));
+        if i % 2 == 0 {
+            pairs.push((sc[1].clone(), ab));
+        }
+    }
+    for (i, (a, b)) in pairs.iter().enumerate() {
+        if i % 20 == 19 {
+            emit(out, json!({"k":"reset","build":BUILD}));
+        }
+        let eo = Ours::pairing(g1o * so(a), g2o * so(b));
+        let er = Refe::pairing(g1r * sr(a), g2r * sr(b));
+        let pow_o = gt_o.0.pow((so(a) * so(b)).into_bigint());
+        let pow_r = gt_r.0.pow((sr(a) * sr(b)).into_bigint());
+        emit(out, json!({"k":"blspair","a":a,"b":b,"ours":ser(&eo.0, true),"ref":ser(&er.0, true),
+            "ours_pow":ser(&pow_o, true),"ref_pow":ser(&pow_r, true)}));
+    }
+}
+
+trait ZeroPt {
+    fn zero_pt() -> Self;
+}
+impl<T: ark_ff::Zero> ZeroPt for T {
+    fn zero_pt() -> Self {
+        T::zero()
+    }
+}
+trait ToBytesVec {
+    fn to_bytes_le_vec(&self) -> Vec<u8>;
+}
+impl<const N: usize> ToBytesVec for ark_ff::BigInt<N> {
+    fn to_bytes_le_vec(&self) -> Vec<u8> {
+        use ark_ff::BigInteger;
+        self.to_bytes_le()
+    }
+}
